@@ -181,6 +181,11 @@ def main():
         run = props.run_property(pid, prop, args.tier, seed, scratch, replay=args.replay)
         # 4. classify
         findings = props.load_findings()
+        if not args.replay:
+            kl, regress, notes = props.run_findings(pid, scratch)
+            known_lines.extend(kl)
+            run["failures"].extend(regress)
+            run.setdefault("notes", []).extend(notes)
         for fail in run["failures"]:
             kf = props.match_finding(findings, pid, fail)
             if kf is not None:
